@@ -1172,6 +1172,46 @@ fn c03(args: &Args) -> ! {
         r.id = format!("array-keys:{:?}:{}:{:?}", d.keys, d.prefix, d.store);
         r
     });
+    // long keys: lengths around 256/512 (1-byte length wrap) sharing everything but their tail
+    let long_uni: Vec<Vec<u8>> = {
+        let mut v = vec![];
+        for len in [255usize, 256, 257, 259, 260, 512, 513] {
+            for last in [0x00u8, b'y'] {
+                let mut k = vec![b'k'; len];
+                k[len - 1] = last;
+                v.push(k);
+            }
+        }
+        v.push(b"k".to_vec());
+        v.push(vec![b'k'; 3]);
+        v
+    };
+    let long_probes: Vec<Key> = long_uni.iter().map(|k| Key::A(k.clone())).collect();
+    let mut ldescs: Vec<SortCase> = vec![];
+    for sub in subsets(long_uni.len(), 1, if t { 3 } else { 2 }) {
+        for prefix in [0usize, 1, 4, 8] {
+            for store in [StoreKind::Plain, StoreKind::Indexed] {
+                ldescs.push(SortCase {
+                    keys: sub.iter().rev().map(|&i| Key::A(long_uni[i].clone())).collect(),
+                    prefix,
+                    store,
+                    probes: vec![],
+                    windows: None,
+                });
+            }
+        }
+    }
+    run_cases(&mut rep, &ldescs, |d| {
+        let mut d = d.clone();
+        d.probes = long_probes.clone();
+        let mut r = sort_result(&d, "long-keys");
+        r.id = format!("long-keys:{:?}:{}:{:?}", d.keys.iter().map(|k| match k { Key::A(a) => (a.len(), a[a.len() - 1]), _ => (0, 0) }).collect::<Vec<_>>(), d.prefix, d.store);
+        r.sample = json!({"tier": "long-keys", "lens": d.keys.iter().map(|k| match k { Key::A(a) => a.len(), _ => 0 }).collect::<Vec<_>>(), "prefix": d.prefix});
+        if let Some(v) = &mut r.violation {
+            v.2 = json!({"engine":"schemamc","sub":"c03","long_keys": d.keys.iter().map(|k| match k { Key::A(a) => json!([a.len(), a[a.len()-1]]), _ => json!(null) }).collect::<Vec<_>>(), "prefix": d.prefix, "store": format!("{:?}", d.store)});
+        }
+        r
+    });
     // integer keys
     let ua = uint_alphabet();
     let sa = sint_alphabet();
@@ -1233,11 +1273,13 @@ fn c03_large(rep: &mut Report, n: usize) {
         ("shared-long-prefix", Box::new(|i| { let mut v = vec![b'p'; 40]; v.extend(format!("{:05}", i).into_bytes()); v })),
         ("binary-be", Box::new(|i| (i as u32).to_be_bytes().to_vec())),
         ("nul-tails", Box::new(|i| { let mut v = vec![b'k'; 1 + i % 3]; v.extend(vec![0u8; i / 3 % 50]); v.extend((i as u16).to_le_bytes()); v })),
+        // the same tails under two different heads: with an inline prefix the deported parts are shared values
+        ("shared-tails", Box::new(|i| { let mut v = if i % 2 == 0 { b"aa".to_vec() } else { b"bb".to_vec() }; v.extend(format!("{:05}", i / 2).into_bytes()); v })),
     ];
     for (_name, f) in &shapes {
         for prefix in [0usize, 2, 31] {
             for store in [StoreKind::Plain, StoreKind::Indexed] {
-                if store == StoreKind::Indexed && n > 3000 {
+                if store == StoreKind::Indexed && n > 4000 {
                     continue; // the indexed store's add_value is quadratic
                 }
                 for order in 0..3 {
